@@ -22,6 +22,8 @@ VARIANTS = {
     },
     "repo-bin": {"kind": "repo-bin", "features": ""},
     "repo-bin-jit": {"kind": "repo-bin", "features": "jit"},
+    "repo-bin-rel": {"kind": "repo-bin", "features": "", "release": True},
+    "repo-bin-jit-rel": {"kind": "repo-bin", "features": "jit", "release": True},
     # the harness under the Miri interpreter (no fork, no translated code, no file mmap); aliasing models off, see DESIGN section 5
     "miri": {"kind": "miri", "features": "verif", "toolchain": "nightly",
              "env": {"MIRIFLAGS": "-Zmiri-disable-isolation -Zmiri-disable-stacked-borrows"}},
@@ -121,12 +123,14 @@ CHECKS = {
             {"variant": "jit-dbg", "monitor": "c04", "shards": 16, "args": {"role": "compare"}, "name": "c04-jit-compare"},
             {"variant": "interp-rel", "monitor": "c04", "shards": 16, "args": {"role": "write"}, "name": "c04-interpreter-stream-release", "tiers": ("thorough",)},
             {"variant": "jit-rel", "monitor": "c04", "shards": 16, "args": {"role": "compare"}, "name": "c04-jit-compare-release", "tiers": ("thorough",)},
+            {"variant": "interp-dbg", "monitor": "c04r", "shards": 16, "also_build": ["repo-bin", "repo-bin-jit", "repo-bin-rel", "repo-bin-jit-rel"], "name": "c04-real-binaries(debug and release, jit on and off)",
+             "env": {"GBV_REPO_BIN": "{repo_bin}", "GBV_REPO_BIN_JIT": "{repo_bin_jit}", "GBV_REPO_BIN_REL": "{repo_bin_rel}", "GBV_REPO_BIN_JIT_REL": "{repo_bin_jit_rel}"}},
         ] + valgrind_stream_pair("c04", 160),
         "floors": {"quick": {"steps-compared-with-interpreter-build": 600_000, "jit:dispatches:vblank": 100, "jit:dispatches:timer": 1_000, "jit:dma-transfers": 300,
-                             "jit:ram-resident-blocks": 5_000, "jit:suspended-steps": 100_000, "jit:serial-bytes": 500, "code-cache-restarts-observed": 1},
-                   "thorough": {"steps-compared-with-interpreter-build": 10_000_000}},
+                             "jit:ram-resident-blocks": 5_000, "jit:suspended-steps": 100_000, "jit:serial-bytes": 500, "code-cache-restarts-observed": 1, "runs-of-the-real-binaries": 60, "access-tests-in-the-programs": 600},
+                   "thorough": {"steps-compared-with-interpreter-build": 10_000_000, "runs-of-the-real-binaries": 300}},
         "exhaustive": {"quick": False, "thorough": False},
-        "assumptions": ["both builds include the observation hooks; the hooks-off binaries are compared end to end under C18"],
+        "assumptions": ["the step-by-step comparison runs on builds that include the observation hooks; the hooks-off binaries (debug and release profile, recompiler on and off) are compared end to end through their serial output on generated ROMs"],
     },
     "C05": {
         "title": "interpreter data semantics vs SM83 reference",
